@@ -215,7 +215,14 @@ def run_batch(batch):
             # fractional floats, a mix of ints and floats; the light state of the tile must carry exactly that number
             pool = rng.choice([[2 ** 53 + 1, 10 ** 17 + 3, 10 ** 30, 2 ** 64 - 1, 0, 7], [0.1, 2.5, 1e-9, 3, 0, 1e300], [2 ** 53 + 1, 0.5, 5, 5.0, 10 ** 60, 1]])
             rewards = [[rng.choice(pool) for _ in range(W)] for _ in range(L)]
+        if idx % 7 == 4:
+            # a board written as a constant: tuples of tuples / ranges (the generator only indexes and iterates the rows)
+            moves, rewards, loose = tuple(tuple(r) for r in moves), tuple(tuple(r) for r in rewards), tuple(tuple(r) for r in loose)
         pt, prb, pl = rng.choice(PROBS), rng.choice(PROBS), rng.choice(PROBS)
+        if idx % 9 == 5:
+            # legal probabilities so small that 1 - p == 1.0 in floating point (the branch still exists)
+            pt = rng.choice([1e-17, 5e-324, 2.0 ** -60, 1e-300])
+            prb = rng.choice([prb, 1e-17])
         if rng.random() < 0.3:
             pt, prb, pl = rng.uniform(0.001, 0.999), rng.uniform(0.001, 0.999), rng.uniform(0.001, 0.999)
         r = decide_board(idx, cls, moves, rewards, loose, pt, prb, pl, manual=(cls == "MANUAL"))
